@@ -1,1 +1,1052 @@
-// stub
+//! cw4 family: the two group contracts cw4-group and cw4-stake (direct driver).
+//!   C09  totals and point-in-time member weights match the true history; raw keys == smart queries
+//!   C14  only the admin changes a group; hooks hear every change truthfully
+//! One case type, one interpreter; the oracle that is evaluated is chosen by the property id.
+use cosmwasm_std::{coin, from_json, Addr, Coin, CosmosMsg, Response, Uint128, WasmMsg};
+use cw20::Denom;
+use cw4::{
+    member_key, AdminResponse, HooksResponse, Member, MemberChangedHookMsg, MemberListResponse,
+    MemberResponse, TotalWeightResponse, TOTAL_KEY,
+};
+use cw_utils::Duration;
+use proptest::prelude::*;
+use serde::{Deserialize, Serialize};
+use std::collections::{BTreeMap, BTreeSet};
+use vcore::amounts::{edge_u64, pick};
+use vcore::direct::Direct;
+use vcore::{CaseCtx, Family, PropSpec, Tier, Violation};
+
+/// valid pool addresses: members, senders, admins
+pub const N_ADDR: u8 = 6;
+/// indices N_ADDR..N_ADDR_ALL are invalid address strings
+pub const N_ADDR_ALL: u8 = 8;
+/// valid hook addresses
+pub const N_HOOK: u8 = 4;
+/// index N_HOOK is an invalid address string
+pub const N_HOOK_ALL: u8 = 5;
+
+const STAKE_DENOM: &str = "ustake";
+const OTHER_DENOM: &str = "uother";
+/// bonded amounts are capped so that every stake/tokens_per_weight quotient and every sum of
+/// weights fits u64 by a wide margin (the u64 wrap of cw4-stake is C10's subject, finding F2)
+const MAX_BOND: u128 = 1 << 40;
+
+#[derive(Clone, Debug, Serialize, Deserialize, PartialEq)]
+pub struct StakeCfg {
+    pub tpw: u64,
+    pub min_bond: u64,
+    pub unbond_blocks: u8,
+}
+
+/// who sends an admin-gated call
+#[derive(Clone, Debug, Serialize, Deserialize, PartialEq)]
+pub enum Who {
+    /// whoever is admin at that moment (the last admin if there is none, actor 0 if there never was one)
+    Admin,
+    /// the most recent former admin that is not the current one (actor 1 if none)
+    ExAdmin,
+    Actor(u8),
+}
+
+#[derive(Clone, Debug, Serialize, Deserialize, PartialEq)]
+pub enum Wt {
+    Abs(u64),
+    /// the address's current weight (1 if it is not a member): a re-weight to the same value
+    Same,
+}
+
+#[derive(Clone, Debug, Serialize, Deserialize, PartialEq)]
+pub enum HookSel {
+    Ix(u8),
+    /// k-th currently registered hook (hook 0 if none)
+    Registered(u16),
+}
+
+#[derive(Clone, Debug, Serialize, Deserialize, PartialEq)]
+pub enum BondAmt {
+    Abs(u64),
+    /// k * tokens_per_weight
+    Tpw(u8),
+    /// min_bond - current stake + d (what is missing to become a member)
+    ToMinBond(i8),
+}
+
+#[derive(Clone, Debug, Serialize, Deserialize, PartialEq)]
+pub enum Funds {
+    Stake(BondAmt),
+    WrongDenom(u64),
+    Nothing,
+    TwoCoins(u64),
+}
+
+#[derive(Clone, Debug, Serialize, Deserialize, PartialEq)]
+pub enum UnbondAmt {
+    Abs(u64),
+    /// whole stake + d
+    All(i8),
+    /// (k+1)/256 of the stake
+    Frac(u8),
+    /// stake - min_bond + 1: just enough to drop out of the member list
+    BelowMin,
+    /// k * tokens_per_weight
+    Tpw(u8),
+}
+
+#[derive(Clone, Debug, Serialize, Deserialize, PartialEq)]
+pub enum Op {
+    // cw4-group only
+    UpdateMembers { by: Who, add: Vec<(u8, Wt)>, remove: Vec<u8> },
+    // both
+    UpdateAdmin { by: Who, to: Option<u8> },
+    AddHook { by: Who, hook: u8 },
+    RemoveHook { by: Who, hook: HookSel },
+    // cw4-stake only
+    Bond { by: u8, funds: Funds },
+    Unbond { by: u8, amt: UnbondAmt },
+    Claim { by: u8 },
+}
+
+/// One block: the height advances by `gap` (0 = stay in the block that is open, e.g. the
+/// instantiation block), then the ops run as separate transactions of that block.
+#[derive(Clone, Debug, Serialize, Deserialize, PartialEq)]
+pub struct Block {
+    pub gap: u8,
+    pub ops: Vec<Op>,
+}
+
+#[derive(Clone, Debug, Serialize, Deserialize, PartialEq)]
+pub struct Case {
+    /// None: cw4-group, Some: cw4-stake with a native stake denom
+    pub stake: Option<StakeCfg>,
+    pub admin: Option<u8>,
+    /// initial members (cw4-group only)
+    pub members: Vec<(u8, u64)>,
+    pub blocks: Vec<Block>,
+}
+
+// ---------------------------------------------------------------- strategies
+
+fn any_addr() -> BoxedStrategy<u8> {
+    prop_oneof![45 => 0u8..N_ADDR, 1 => N_ADDR..N_ADDR_ALL].boxed()
+}
+
+fn who(prop: &str) -> BoxedStrategy<Who> {
+    if prop == "C14" {
+        prop_oneof![60 => Just(Who::Admin), 12 => Just(Who::ExAdmin), 28 => (0u8..N_ADDR).prop_map(Who::Actor)].boxed()
+    } else {
+        prop_oneof![88 => Just(Who::Admin), 2 => Just(Who::ExAdmin), 10 => (0u8..N_ADDR).prop_map(Who::Actor)].boxed()
+    }
+}
+
+fn wt() -> BoxedStrategy<Wt> {
+    prop_oneof![
+        3 => Just(Wt::Abs(0)),
+        3 => Just(Wt::Abs(1)),
+        20 => (0u64..100).prop_map(Wt::Abs),
+        5 => Just(Wt::Same),
+        2 => edge_u64().prop_map(Wt::Abs),
+        1 => Just(Wt::Abs(u64::MAX)),
+    ]
+    .boxed()
+}
+
+fn hook_ix() -> BoxedStrategy<u8> {
+    prop_oneof![30 => 0u8..N_HOOK, 1 => N_HOOK..N_HOOK_ALL].boxed()
+}
+
+fn hook_sel() -> BoxedStrategy<HookSel> {
+    prop_oneof![3 => any::<u16>().prop_map(HookSel::Registered), 1 => hook_ix().prop_map(HookSel::Ix)].boxed()
+}
+
+fn admin_target() -> BoxedStrategy<Option<u8>> {
+    prop_oneof![1 => Just(None), 14 => any_addr().prop_map(Some)].boxed()
+}
+
+fn group_op(prop: &str) -> BoxedStrategy<Op> {
+    let add = prop_oneof![
+        14 => proptest::collection::btree_map(any_addr(), wt(), 0..=3).prop_map(|m| m.into_iter().collect::<Vec<_>>()),
+        1 => proptest::collection::vec((any_addr(), wt()), 0..=4),
+    ];
+    let remove = proptest::collection::vec(any_addr(), 0..=2);
+    let upd = (who(prop), add, remove).prop_map(|(by, add, remove)| Op::UpdateMembers { by, add, remove }).boxed();
+    let adm = (who(prop), admin_target()).prop_map(|(by, to)| Op::UpdateAdmin { by, to }).boxed();
+    let addh = (who(prop), hook_ix()).prop_map(|(by, hook)| Op::AddHook { by, hook }).boxed();
+    let remh = (who(prop), hook_sel()).prop_map(|(by, hook)| Op::RemoveHook { by, hook }).boxed();
+    if prop == "C14" {
+        prop_oneof![12 => upd, 3 => adm, 6 => addh, 4 => remh].boxed()
+    } else {
+        prop_oneof![30 => upd, 1 => adm, 1 => addh, 1 => remh].boxed()
+    }
+}
+
+fn bond_amt() -> BoxedStrategy<BondAmt> {
+    prop_oneof![
+        2 => Just(BondAmt::Abs(0)),
+        2 => Just(BondAmt::Abs(1)),
+        10 => (0u64..1000).prop_map(BondAmt::Abs),
+        2 => (0u64..=(MAX_BOND as u64)).prop_map(BondAmt::Abs),
+        6 => (0u8..6).prop_map(BondAmt::Tpw),
+        6 => (-1i8..=2).prop_map(BondAmt::ToMinBond),
+    ]
+    .boxed()
+}
+
+fn stake_op(prop: &str) -> BoxedStrategy<Op> {
+    let funds = prop_oneof![
+        40 => bond_amt().prop_map(Funds::Stake),
+        1 => (1u64..1000).prop_map(Funds::WrongDenom),
+        1 => Just(Funds::Nothing),
+        1 => (1u64..1000).prop_map(Funds::TwoCoins),
+    ];
+    let unbond_amt = prop_oneof![
+        4 => (0u64..1000).prop_map(UnbondAmt::Abs),
+        6 => (-1i8..=1).prop_map(UnbondAmt::All),
+        4 => any::<u8>().prop_map(UnbondAmt::Frac),
+        5 => Just(UnbondAmt::BelowMin),
+        4 => (0u8..4).prop_map(UnbondAmt::Tpw),
+    ];
+    let users = 4u8; // bonding users: a small pool keeps several changes per address and block common
+    let bond = (0u8..users, funds).prop_map(|(by, funds)| Op::Bond { by, funds }).boxed();
+    let unbond = (0u8..users, unbond_amt).prop_map(|(by, amt)| Op::Unbond { by, amt }).boxed();
+    let claim = (0u8..users).prop_map(|by| Op::Claim { by }).boxed();
+    let adm = (who(prop), admin_target()).prop_map(|(by, to)| Op::UpdateAdmin { by, to }).boxed();
+    let addh = (who(prop), hook_ix()).prop_map(|(by, hook)| Op::AddHook { by, hook }).boxed();
+    let remh = (who(prop), hook_sel()).prop_map(|(by, hook)| Op::RemoveHook { by, hook }).boxed();
+    if prop == "C14" {
+        prop_oneof![9 => bond, 7 => unbond, 1 => claim, 3 => adm, 6 => addh, 4 => remh].boxed()
+    } else {
+        prop_oneof![16 => bond, 14 => unbond, 1 => claim, 1 => adm, 1 => addh, 1 => remh].boxed()
+    }
+}
+
+fn blocks(op: BoxedStrategy<Op>, max_blocks: usize, max_ops: usize) -> BoxedStrategy<Vec<Block>> {
+    let gap = prop_oneof![1 => Just(0u8), 12 => 1u8..=5];
+    let block = (gap, proptest::collection::vec(op, 0..=max_ops)).prop_map(|(gap, ops)| Block { gap, ops });
+    proptest::collection::vec(block, 0..=max_blocks).boxed()
+}
+
+fn admin_init() -> BoxedStrategy<Option<u8>> {
+    prop_oneof![1 => Just(None), 24 => any_addr().prop_map(Some)].boxed()
+}
+
+fn shape(prop: &str, tier: Tier) -> (usize, usize) {
+    match (prop, tier) {
+        ("C14", Tier::Quick) => (16, 5),
+        ("C14", Tier::Thorough) => (30, 6),
+        (_, Tier::Quick) => (25, 3),
+        (_, Tier::Thorough) => (50, 4),
+    }
+}
+
+pub fn case_strategy(prop: &str, tier: Tier) -> BoxedStrategy<Case> {
+    let (max_blocks, max_ops) = shape(prop, tier);
+    let members = prop_oneof![
+        20 => proptest::collection::btree_map(0u8..N_ADDR, prop_oneof![1 => Just(0u64), 10 => 0u64..100, 1 => edge_u64()], 0..=N_ADDR as usize)
+            .prop_map(|m| m.into_iter().collect::<Vec<_>>()),
+        2 => proptest::collection::vec((any_addr(), prop_oneof![4 => 0u64..100, 1 => edge_u64()]), 0..=6),
+    ];
+    let group = (admin_init(), members, blocks(group_op(prop), max_blocks, max_ops))
+        .prop_map(|(admin, members, blocks)| Case { stake: None, admin, members, blocks })
+        .boxed();
+    let cfg = (
+        prop_oneof![10 => Just(1u64), 6 => 2u64..=10, 3 => Just(100u64), 2 => Just(1000u64), 1 => 1u64..5000, 1 => Just(0u64)],
+        prop_oneof![3 => Just(0u64), 3 => Just(1u64), 8 => 2u64..40, 3 => 40u64..3000],
+        1u8..4,
+    )
+        .prop_map(|(tpw, min_bond, unbond_blocks)| StakeCfg { tpw, min_bond, unbond_blocks });
+    let stake = (cfg, admin_init(), blocks(stake_op(prop), max_blocks, max_ops))
+        .prop_map(|(cfg, admin, blocks)| Case { stake: Some(cfg), admin, members: vec![], blocks })
+        .boxed();
+    prop_oneof![3 => group, 2 => stake].boxed()
+}
+
+// ---------------------------------------------------------------- world
+
+#[derive(Clone, Debug, PartialEq)]
+struct Obs {
+    members: BTreeMap<String, u64>,
+    total: u64,
+    hooks: BTreeSet<String>,
+    admin: Option<String>,
+}
+
+struct World {
+    d: Direct,
+    stake: Option<StakeCfg>,
+    addrs: Vec<Addr>,
+    /// N_ADDR valid strings followed by invalid ones
+    addr_strs: Vec<String>,
+    /// N_HOOK valid strings followed by an invalid one
+    hook_strs: Vec<String>,
+}
+
+fn v(prop: &str, sig: &str, msg: String) -> Violation {
+    Violation::new(prop, &format!("{prop}/{sig}"), msg)
+}
+
+enum X {
+    UpdateMembers { add: Vec<Member>, remove: Vec<String> },
+    UpdateAdmin { admin: Option<String> },
+    AddHook { addr: String },
+    RemoveHook { addr: String },
+    Bond,
+    Unbond { tokens: u128 },
+    Claim,
+}
+
+impl World {
+    fn new(stake: Option<StakeCfg>) -> World {
+        let d = Direct::new();
+        let addrs: Vec<Addr> = (0..N_ADDR).map(|i| d.api.addr_make(&format!("member{i}"))).collect();
+        let mut addr_strs: Vec<String> = addrs.iter().map(|a| a.to_string()).collect();
+        addr_strs.push("x".to_string());
+        addr_strs.push(addrs[0].to_string().to_uppercase());
+        let mut hook_strs: Vec<String> = (0..N_HOOK).map(|i| d.api.addr_make(&format!("hook{i}")).to_string()).collect();
+        hook_strs.push("not-a-hook-address".to_string());
+        World { d, stake, addrs, addr_strs, hook_strs }
+    }
+
+    fn is_group(&self) -> bool {
+        self.stake.is_none()
+    }
+    fn addr_str(&self, ix: u8) -> String {
+        self.addr_strs[ix as usize % N_ADDR_ALL as usize].clone()
+    }
+    fn hook_str(&self, ix: u8) -> String {
+        self.hook_strs[ix as usize % N_HOOK_ALL as usize].clone()
+    }
+
+    fn member(&self, addr: &str, at_height: Option<u64>) -> Result<Option<u64>, String> {
+        let addr = addr.to_string();
+        let r: MemberResponse = if self.is_group() {
+            self.d.query(|deps, env| cw4_group::contract::query(deps, env, cw4_group::msg::QueryMsg::Member { addr, at_height }))?
+        } else {
+            self.d.query(|deps, env| cw4_stake::contract::query(deps, env, cw4_stake::msg::QueryMsg::Member { addr, at_height }))?
+        };
+        Ok(r.weight)
+    }
+
+    /// `at_height` is only supported by cw4-group
+    fn total(&self, at_height: Option<u64>) -> Result<u64, String> {
+        let r: TotalWeightResponse = if self.is_group() {
+            self.d.query(|deps, env| cw4_group::contract::query(deps, env, cw4_group::msg::QueryMsg::TotalWeight { at_height }))?
+        } else {
+            self.d.query(|deps, env| cw4_stake::contract::query(deps, env, cw4_stake::msg::QueryMsg::TotalWeight {}))?
+        };
+        Ok(r.weight)
+    }
+
+    /// ListMembers paged to exhaustion (page size 4)
+    fn list(&self) -> Result<Vec<(String, u64)>, String> {
+        let mut out: Vec<(String, u64)> = vec![];
+        let mut cursor: Option<String> = None;
+        loop {
+            let (start_after, limit) = (cursor.clone(), Some(4u32));
+            let page: MemberListResponse = if self.is_group() {
+                self.d.query(|deps, env| cw4_group::contract::query(deps, env, cw4_group::msg::QueryMsg::ListMembers { start_after, limit }))?
+            } else {
+                self.d.query(|deps, env| cw4_stake::contract::query(deps, env, cw4_stake::msg::QueryMsg::ListMembers { start_after, limit }))?
+            };
+            if page.members.is_empty() {
+                return Ok(out);
+            }
+            cursor = page.members.last().map(|m| m.addr.clone());
+            out.extend(page.members.into_iter().map(|m| (m.addr, m.weight)));
+            if out.len() > 1000 {
+                return Err("ListMembers does not terminate".into());
+            }
+        }
+    }
+
+    fn admin(&self) -> Result<Option<String>, String> {
+        let r: AdminResponse = if self.is_group() {
+            self.d.query(|deps, env| cw4_group::contract::query(deps, env, cw4_group::msg::QueryMsg::Admin {}))?
+        } else {
+            self.d.query(|deps, env| cw4_stake::contract::query(deps, env, cw4_stake::msg::QueryMsg::Admin {}))?
+        };
+        Ok(r.admin)
+    }
+
+    fn hooks(&self) -> Result<Vec<String>, String> {
+        let r: HooksResponse = if self.is_group() {
+            self.d.query(|deps, env| cw4_group::contract::query(deps, env, cw4_group::msg::QueryMsg::Hooks {}))?
+        } else {
+            self.d.query(|deps, env| cw4_stake::contract::query(deps, env, cw4_stake::msg::QueryMsg::Hooks {}))?
+        };
+        Ok(r.hooks)
+    }
+
+    fn staked(&self, addr: &str) -> Result<u128, String> {
+        let address = addr.to_string();
+        let r: cw4_stake::msg::StakedResponse =
+            self.d.query(|deps, env| cw4_stake::contract::query(deps, env, cw4_stake::msg::QueryMsg::Staked { address }))?;
+        Ok(r.stake.u128())
+    }
+
+    fn observe(&self, prop: &str) -> Result<Obs, Violation> {
+        let qerr = |e: String| v(prop, "query-failed", format!("a query failed or panicked: {e}"));
+        let mut members = BTreeMap::new();
+        for (a, wgt) in self.list().map_err(qerr)? {
+            if members.insert(a.clone(), wgt).is_some() {
+                return Err(v(prop, "member-listed-twice", format!("ListMembers lists {a} twice")));
+            }
+        }
+        Ok(Obs {
+            members,
+            total: self.total(None).map_err(qerr)?,
+            hooks: self.hooks().map_err(qerr)?.into_iter().collect(),
+            admin: self.admin().map_err(qerr)?,
+        })
+    }
+
+    fn exec(&mut self, sender: &Addr, funds: &[Coin], x: X) -> Result<Response, String> {
+        let info = Direct::info(sender, funds);
+        if self.is_group() {
+            use cw4_group::msg::ExecuteMsg as E;
+            let msg = match x {
+                X::UpdateMembers { add, remove } => E::UpdateMembers { add, remove },
+                X::UpdateAdmin { admin } => E::UpdateAdmin { admin },
+                X::AddHook { addr } => E::AddHook { addr },
+                X::RemoveHook { addr } => E::RemoveHook { addr },
+                X::Bond | X::Unbond { .. } | X::Claim => return Err("not a cw4-group call".into()),
+            };
+            self.d.tx(|deps, env| cw4_group::contract::execute(deps, env, info, msg))
+        } else {
+            use cw4_stake::msg::ExecuteMsg as E;
+            let msg = match x {
+                X::UpdateAdmin { admin } => E::UpdateAdmin { admin },
+                X::AddHook { addr } => E::AddHook { addr },
+                X::RemoveHook { addr } => E::RemoveHook { addr },
+                X::Bond => E::Bond {},
+                X::Unbond { tokens } => E::Unbond { tokens: Uint128::new(tokens) },
+                X::Claim => E::Claim {},
+                X::UpdateMembers { .. } => return Err("not a cw4-stake call".into()),
+            };
+            self.d.tx(|deps, env| cw4_stake::contract::execute(deps, env, info, msg))
+        }
+    }
+}
+
+#[derive(Deserialize)]
+#[serde(rename_all = "snake_case")]
+enum HookWrap {
+    MemberChangedHook(MemberChangedHookMsg),
+}
+
+// ---------------------------------------------------------------- C09 oracle
+
+/// membership at the start of block h: the state at the end of the last block below h
+/// (None: the group did not exist yet)
+fn state_before(hist: &[(u64, BTreeMap<String, u64>)], h: u64) -> Option<&BTreeMap<String, u64>> {
+    hist.iter().rev().find(|(bh, _)| *bh < h).map(|(_, m)| m)
+}
+
+fn check_c09_current(w: &World, o: &Obs, model: Option<&BTreeMap<String, u64>>, at: &str) -> Result<(), Violation> {
+    let prop = "C09";
+    let qerr = |e: String| v(prop, "query-failed", format!("{at}: a query failed or panicked: {e}"));
+    // reported total == sum of the listed members' weights
+    let sum: u128 = o.members.values().map(|x| *x as u128).sum();
+    if sum != o.total as u128 {
+        return Err(v(prop, "total-ne-sum", format!("{at}: TotalWeight reports {} but the listed members' weights sum to {} ({:?})", o.total, sum, o.members)));
+    }
+    // cw4-group: the listed members are what the successful calls asked for
+    if let Some(m) = model {
+        if *m != o.members {
+            return Err(v(prop, "members-ne-model", format!("{at}: ListMembers reports {:?}, the history of successful calls gives {:?}", o.members, m)));
+        }
+    }
+    // point query and raw keys agree with the listing
+    for a in w.addr_strs.iter().take(N_ADDR as usize) {
+        let listed = o.members.get(a).copied();
+        let point = w.member(a, None).map_err(qerr)?;
+        if point != listed {
+            return Err(v(prop, "member-ne-list", format!("{at}: Member{{{a}}} reports {:?}, ListMembers {:?}", point, listed)));
+        }
+        let raw = w.d.raw(&member_key(a));
+        let raw_val: Option<u64> = match &raw {
+            None => None,
+            Some(bytes) => Some(from_json::<u64>(bytes).map_err(|e| v(prop, "raw-member", format!("{at}: raw value under member_key({a}) is not a JSON number: {e}")))?),
+        };
+        if raw_val != point {
+            return Err(v(prop, "raw-member", format!("{at}: raw read of member_key({a}) gives {:?}, Member query {:?}", raw_val, point)));
+        }
+    }
+    let raw_total: Option<u64> = match w.d.raw(TOTAL_KEY.as_bytes()) {
+        None => None,
+        Some(bytes) => Some(from_json::<u64>(&bytes).map_err(|e| v(prop, "raw-total", format!("{at}: raw value under TOTAL_KEY is not a JSON number: {e}")))?),
+    };
+    if raw_total != Some(o.total) {
+        return Err(v(prop, "raw-total", format!("{at}: raw read of TOTAL_KEY gives {:?}, TotalWeight query {}", raw_total, o.total)));
+    }
+    Ok(())
+}
+
+fn check_c09_heights(
+    w: &World,
+    hist: &[(u64, BTreeMap<String, u64>)],
+    heights: std::ops::RangeInclusive<u64>,
+    at: &str,
+    ctx: &mut CaseCtx,
+) -> Result<(), Violation> {
+    let prop = "C09";
+    let qerr = |e: String| v(prop, "query-failed", format!("{at}: a query failed or panicked: {e}"));
+    let mut n = 0u64;
+    for h in heights {
+        let st = state_before(hist, h);
+        for a in w.addr_strs.iter().take(N_ADDR as usize) {
+            let got = w.member(a, Some(h)).map_err(qerr)?;
+            let want = st.and_then(|m| m.get(a).copied());
+            n += 1;
+            if got != want {
+                return Err(v(
+                    prop,
+                    "member-at-height",
+                    format!("{at} (now at height {}): Member{{{a}, at_height: {h}}} reports {:?}; the weight at the start of block {h} was {:?}", w.d.height, got, want),
+                ));
+            }
+        }
+        if w.is_group() {
+            // before the group existed the contract answers 0 ("nothing"); the response type has no None
+            let got = w.total(Some(h)).map_err(qerr)?;
+            let want: u128 = st.map(|m| m.values().map(|x| *x as u128).sum()).unwrap_or(0);
+            n += 1;
+            if got as u128 != want {
+                return Err(v(
+                    prop,
+                    "total-at-height",
+                    format!("{at} (now at height {}): TotalWeight{{at_height: {h}}} reports {got}; the total at the start of block {h} was {want}", w.d.height),
+                ));
+            }
+        }
+    }
+    ctx.add("height_queries", n);
+    Ok(())
+}
+
+// ---------------------------------------------------------------- C14 oracle
+
+#[allow(clippy::too_many_arguments)]
+fn check_c14_step(
+    w: &World,
+    sender: &str,
+    touched: &BTreeSet<String>,
+    ok: bool,
+    resp: Option<&Response>,
+    pre: &Obs,
+    post: &Obs,
+    hooks_pre: &BTreeSet<String>,
+    at: &str,
+    ctx: &mut CaseCtx,
+) -> Result<bool, Violation> {
+    let prop = "C14";
+    // ---- who may change membership (cw4-group), hook list, admin
+    let sender_is_admin = pre.admin.as_deref() == Some(sender);
+    let mut what = vec![];
+    if w.is_group() && pre.members != post.members {
+        what.push(format!("members {:?} -> {:?}", pre.members, post.members));
+    }
+    if pre.hooks != post.hooks {
+        what.push(format!("hooks {:?} -> {:?}", pre.hooks, post.hooks));
+    }
+    if pre.admin != post.admin {
+        what.push(format!("admin {:?} -> {:?}", pre.admin, post.admin));
+    }
+    if !what.is_empty() && !(ok && sender_is_admin) {
+        if pre.admin.is_none() {
+            return Err(v(prop, "changed-while-frozen", format!("{at}: the group has no admin, yet {}", what.join("; "))));
+        }
+        return Err(v(prop, "changed-by-non-admin", format!("{at}: sender is not the admin {:?}, yet {}", pre.admin, what.join("; "))));
+    }
+    if pre.admin.is_none() {
+        ctx.flag("attempt_while_frozen");
+    }
+
+    // ---- notifications
+    let changed: Vec<&String> = pre
+        .members
+        .keys()
+        .chain(post.members.keys())
+        .filter(|k| pre.members.get(*k) != post.members.get(*k))
+        .collect::<BTreeSet<_>>()
+        .into_iter()
+        .collect();
+    let Some(resp) = resp else { return Ok(false) };
+    let mut per_hook: BTreeMap<String, u32> = BTreeMap::new();
+    for sm in &resp.messages {
+        let CosmosMsg::Wasm(WasmMsg::Execute { contract_addr, msg, .. }) = &sm.msg else { continue };
+        let Ok(HookWrap::MemberChangedHook(hook_msg)) = from_json::<HookWrap>(msg) else { continue };
+        ctx.count("notifications_checked");
+        if !hooks_pre.contains(contract_addr) {
+            return Err(v(prop, "notified-unregistered", format!("{at}: a MemberChangedHook notification went to {contract_addr}, which is not a registered hook ({:?})", hooks_pre)));
+        }
+        *per_hook.entry(contract_addr.clone()).or_insert(0) += 1;
+        // compose the entries per key, in order
+        let mut chain: BTreeMap<String, Option<u64>> = BTreeMap::new();
+        for d in &hook_msg.diffs {
+            if !touched.contains(&d.key) {
+                return Err(v(prop, "diff-untouched-address", format!("{at}: notification to {contract_addr} has an entry for {} which this call did not touch; diffs {:?}", d.key, hook_msg.diffs)));
+            }
+            match chain.get_mut(&d.key) {
+                None => {
+                    let was = pre.members.get(&d.key).copied();
+                    if d.old != was {
+                        return Err(v(prop, "diff-untruthful", format!("{at}: notification to {contract_addr} says {} had weight {:?} before the call, it had {:?}; diffs {:?}", d.key, d.old, was, hook_msg.diffs)));
+                    }
+                    chain.insert(d.key.clone(), d.new);
+                }
+                Some(last) => {
+                    if d.old != *last {
+                        return Err(v(prop, "diff-untruthful", format!("{at}: notification to {contract_addr}: entries for {} do not chain ({:?} then old {:?}); diffs {:?}", d.key, last, d.old, hook_msg.diffs)));
+                    }
+                    *last = d.new;
+                }
+            }
+        }
+        for (k, last) in &chain {
+            let is = post.members.get(k).copied();
+            if *last != is {
+                return Err(v(prop, "diff-untruthful", format!("{at}: notification to {contract_addr} says {k} has weight {:?} after the call, it has {:?}; diffs {:?}", last, is, hook_msg.diffs)));
+            }
+        }
+        for k in &changed {
+            if !chain.contains_key(*k) {
+                return Err(v(prop, "diff-missing-change", format!("{at}: {k} changed {:?} -> {:?} but the notification to {contract_addr} has no entry for it; diffs {:?}", pre.members.get(*k), post.members.get(*k), hook_msg.diffs)));
+            }
+        }
+    }
+    if !changed.is_empty() {
+        for h in hooks_pre {
+            let n = per_hook.get(h).copied().unwrap_or(0);
+            if n != 1 {
+                return Err(v(prop, "hook-notification-count", format!("{at}: member weights changed ({:?}) and hook {h} is registered, but it was sent {n} notifications (expected exactly one)", changed)));
+            }
+        }
+        if !hooks_pre.is_empty() {
+            ctx.count("changes_notified");
+        }
+    } else if !per_hook.is_empty() {
+        ctx.count("notified_without_change");
+    }
+    Ok(!changed.is_empty())
+}
+
+// ---------------------------------------------------------------- interpreter
+
+fn resolve_who(who: &Who, pre: &Obs, w: &World, former: &[String]) -> usize {
+    let pos = |s: &String| w.addr_strs.iter().take(N_ADDR as usize).position(|a| a == s);
+    match who {
+        Who::Actor(i) => *i as usize % N_ADDR as usize,
+        Who::Admin => pre.admin.as_ref().and_then(pos).or_else(|| former.last().and_then(pos)).unwrap_or(0),
+        Who::ExAdmin => former.iter().rev().find(|a| Some(*a) != pre.admin.as_ref()).and_then(pos).unwrap_or(1),
+    }
+}
+
+fn clamp_i(base: u128, d: i8) -> u128 {
+    if d >= 0 {
+        base.saturating_add(d as u128)
+    } else {
+        base.saturating_sub((-(d as i16)) as u128)
+    }
+}
+
+pub fn run_case(prop: &str, case: &Case, ctx: &mut CaseCtx) -> Result<(), Violation> {
+    let mut w = World::new(case.stake.clone());
+    let is_group = w.is_group();
+    ctx.flag(if is_group { "flavour_group" } else { "flavour_stake" });
+
+    // ---------------- instantiate
+    let admin_str = case.admin.map(|i| w.addr_str(i));
+    let info = Direct::info(&w.addrs[0], &[]);
+    let r = match &case.stake {
+        None => {
+            let msg = cw4_group::msg::InstantiateMsg {
+                admin: admin_str.clone(),
+                members: case.members.iter().map(|(i, wgt)| Member { addr: w.addr_str(*i), weight: *wgt }).collect(),
+            };
+            w.d.tx(|deps, env| cw4_group::contract::instantiate(deps, env, info, msg))
+        }
+        Some(cfg) => {
+            let msg = cw4_stake::msg::InstantiateMsg {
+                denom: Denom::Native(STAKE_DENOM.to_string()),
+                tokens_per_weight: Uint128::new(cfg.tpw as u128),
+                min_bond: Uint128::new(cfg.min_bond as u128),
+                unbonding_period: Duration::Height(cfg.unbond_blocks as u64),
+                admin: admin_str.clone(),
+            };
+            w.d.tx(|deps, env| cw4_stake::contract::instantiate(deps, env, info, msg))
+        }
+    };
+    if r.is_err() {
+        ctx.count("init_rejected");
+        return Ok(());
+    }
+    ctx.count("init_accepted");
+    let h_inst = w.d.height;
+    let h_lo = h_inst.saturating_sub(2);
+
+    // reference model of cw4-group membership (the documented semantics of the calls);
+    // for cw4-stake the "true history" is the sequence of observed current memberships
+    let mut model: BTreeMap<String, u64> = BTreeMap::new();
+    if is_group {
+        for (i, wgt) in &case.members {
+            model.insert(w.addr_str(*i), *wgt);
+        }
+    }
+    let mut model_hooks: BTreeSet<String> = BTreeSet::new();
+    let mut former_admins: Vec<String> = vec![];
+    let mut pre = w.observe(prop)?;
+    let mut hist: Vec<(u64, BTreeMap<String, u64>)> = vec![];
+
+    if prop == "C09" {
+        check_c09_current(&w, &pre, if is_group { Some(&model) } else { None }, "after instantiate")?;
+        if !is_group {
+            model = pre.members.clone();
+        }
+        hist.push((h_inst, model.clone()));
+        check_c09_heights(&w, &hist, h_lo..=h_inst, "after instantiate", ctx)?;
+    }
+    if prop == "C14" && pre.hooks != model_hooks {
+        return Err(v(prop, "hooks-ne-model", format!("after instantiate: Hooks reports {:?}, none was registered", pre.hooks)));
+    }
+
+    // non-triviality bookkeeping
+    let mut changes_in_block: BTreeMap<String, u32> = BTreeMap::new();
+    let mut removed_once: BTreeSet<String> = BTreeSet::new();
+    let mut hook_stage = 0u8; // C14: 0 -> change with >=2 hooks -> 1 -> hook removal -> 2 -> change with >=1 hook -> 3
+
+    let mut step_no = 0usize;
+    for (bno, blk) in case.blocks.iter().enumerate() {
+        if blk.gap > 0 {
+            if prop == "C09" {
+                // the open block ends: every height from before instantiation to the near future
+                check_c09_heights(&w, &hist, h_lo..=w.d.height + 2, &format!("end of block {} (before block #{bno})", w.d.height), ctx)?;
+                ctx.count("blocks_closed");
+            }
+            w.d.advance(blk.gap as u64, 5 * blk.gap as u64);
+            changes_in_block.clear();
+        }
+        for op in &blk.ops {
+            step_no += 1;
+            // ---------- resolve the op against the current state
+            let mut touched: BTreeSet<String> = BTreeSet::new();
+            let mut funds: Vec<Coin> = vec![];
+            let mut overlap: Vec<String> = vec![];
+            let (kind, sender_ix, x): (&'static str, usize, X) = match op {
+                Op::UpdateMembers { by, add, remove } => {
+                    if !is_group {
+                        ctx.count("op_skipped_wrong_flavour");
+                        continue;
+                    }
+                    let add: Vec<Member> = add
+                        .iter()
+                        .map(|(i, wt)| {
+                            let addr = w.addr_str(*i);
+                            let weight = match wt {
+                                Wt::Abs(x) => *x,
+                                Wt::Same => pre.members.get(&addr).copied().unwrap_or(1),
+                            };
+                            Member { addr, weight }
+                        })
+                        .collect();
+                    let remove: Vec<String> = remove.iter().map(|i| w.addr_str(*i)).collect();
+                    for m in &add {
+                        touched.insert(m.addr.clone());
+                        if remove.contains(&m.addr) {
+                            overlap.push(m.addr.clone());
+                        }
+                    }
+                    for r in &remove {
+                        touched.insert(r.clone());
+                    }
+                    ("UpdateMembers", resolve_who(by, &pre, &w, &former_admins), X::UpdateMembers { add, remove })
+                }
+                Op::UpdateAdmin { by, to } => ("UpdateAdmin", resolve_who(by, &pre, &w, &former_admins), X::UpdateAdmin { admin: to.map(|i| w.addr_str(i)) }),
+                Op::AddHook { by, hook } => ("AddHook", resolve_who(by, &pre, &w, &former_admins), X::AddHook { addr: w.hook_str(*hook) }),
+                Op::RemoveHook { by, hook } => {
+                    let addr = match hook {
+                        HookSel::Ix(i) => w.hook_str(*i),
+                        HookSel::Registered(k) => {
+                            let reg: Vec<&String> = model_hooks.iter().collect();
+                            if reg.is_empty() {
+                                w.hook_str(0)
+                            } else {
+                                reg[pick(*k, reg.len())].clone()
+                            }
+                        }
+                    };
+                    ("RemoveHook", resolve_who(by, &pre, &w, &former_admins), X::RemoveHook { addr })
+                }
+                Op::Bond { by, funds: f } => {
+                    let Some(cfg) = &case.stake else {
+                        ctx.count("op_skipped_wrong_flavour");
+                        continue;
+                    };
+                    let s = *by as usize % N_ADDR as usize;
+                    touched.insert(w.addr_strs[s].clone());
+                    match f {
+                        Funds::Stake(a) => {
+                            let amount = match a {
+                                BondAmt::Abs(x) => *x as u128,
+                                BondAmt::Tpw(k) => *k as u128 * cfg.tpw as u128,
+                                BondAmt::ToMinBond(d) => {
+                                    let st = w.staked(&w.addr_strs[s]).map_err(|e| v(prop, "query-failed", e))?;
+                                    clamp_i((cfg.min_bond as u128).saturating_sub(st), *d)
+                                }
+                            };
+                            funds.push(coin(amount.min(MAX_BOND), STAKE_DENOM));
+                        }
+                        Funds::WrongDenom(x) => funds.push(coin(*x as u128, OTHER_DENOM)),
+                        Funds::Nothing => {}
+                        Funds::TwoCoins(x) => {
+                            funds.push(coin(*x as u128, OTHER_DENOM));
+                            funds.push(coin(*x as u128, STAKE_DENOM));
+                        }
+                    }
+                    ("Bond", s, X::Bond)
+                }
+                Op::Unbond { by, amt } => {
+                    let Some(cfg) = &case.stake else {
+                        ctx.count("op_skipped_wrong_flavour");
+                        continue;
+                    };
+                    let s = *by as usize % N_ADDR as usize;
+                    touched.insert(w.addr_strs[s].clone());
+                    let st = w.staked(&w.addr_strs[s]).map_err(|e| v(prop, "query-failed", e))?;
+                    let tokens = match amt {
+                        UnbondAmt::Abs(x) => *x as u128,
+                        UnbondAmt::All(d) => clamp_i(st, *d),
+                        UnbondAmt::Frac(k) => st * (*k as u128 + 1) / 256,
+                        UnbondAmt::BelowMin => (st + 1).saturating_sub((cfg.min_bond as u128).max(1)),
+                        UnbondAmt::Tpw(k) => *k as u128 * cfg.tpw as u128,
+                    };
+                    ("Unbond", s, X::Unbond { tokens })
+                }
+                Op::Claim { by } => {
+                    if is_group {
+                        ctx.count("op_skipped_wrong_flavour");
+                        continue;
+                    }
+                    ("Claim", *by as usize % N_ADDR as usize, X::Claim)
+                }
+            };
+            let sender = w.addrs[sender_ix].clone();
+            let sender_is_admin = pre.admin.as_deref() == Some(sender.as_str());
+            let descr = match &x {
+                X::UpdateMembers { add, remove } => format!("add={:?} remove={:?}", add.iter().map(|m| (m.addr.as_str(), m.weight)).collect::<Vec<_>>(), remove),
+                X::UpdateAdmin { admin } => format!("to={:?}", admin),
+                X::AddHook { addr } | X::RemoveHook { addr } => format!("hook={addr}"),
+                X::Bond => format!("funds={:?}", funds),
+                X::Unbond { tokens } => format!("tokens={tokens}"),
+                X::Claim => String::new(),
+            };
+            let hook_arg = match &x {
+                X::AddHook { addr } | X::RemoveHook { addr } => Some(addr.clone()),
+                _ => None,
+            };
+            let hooks_pre = model_hooks.clone();
+
+            // ---------- run it
+            let res = w.exec(&sender, &funds, x);
+            let ok = res.is_ok();
+            let post = w.observe(prop)?;
+            ctx.count(&format!("op_{kind}_{}", if ok { "ok" } else { "fail" }));
+            ctx.count(&format!("op_{kind}_{}_{}", if sender_is_admin { "admin" } else { "other" }, if ok { "ok" } else { "fail" }));
+            let at = format!(
+                "step {step_no} (height {}) {kind} by member{sender_ix}{} {descr} -> {}",
+                w.d.height,
+                if sender_is_admin { " [admin]" } else { "" },
+                match &res {
+                    Ok(_) => "ok".to_string(),
+                    Err(e) => format!("err({e})"),
+                }
+            );
+            if !ok && post != pre {
+                return Err(v(prop, "failed-call-changed-state", format!("{at}: harness rollback broken?")));
+            }
+
+            // ---------- models
+            if ok {
+                match op {
+                    Op::UpdateMembers { .. } => {
+                        if let Op::UpdateMembers { add, remove, .. } = op {
+                            for (i, wt) in add {
+                                let addr = w.addr_str(*i);
+                                let weight = match wt {
+                                    Wt::Abs(x) => *x,
+                                    Wt::Same => pre.members.get(&addr).copied().unwrap_or(1),
+                                };
+                                model.insert(addr, weight);
+                            }
+                            // "remove is applied after add, so if an address is in both, it is removed"
+                            for i in remove {
+                                model.remove(&w.addr_str(*i));
+                            }
+                        }
+                    }
+                    Op::AddHook { .. } => {
+                        model_hooks.insert(hook_arg.clone().unwrap_or_default());
+                    }
+                    Op::RemoveHook { .. } => {
+                        model_hooks.remove(&hook_arg.clone().unwrap_or_default());
+                    }
+                    _ => {}
+                }
+            }
+            if !is_group {
+                model = post.members.clone();
+            }
+            if pre.admin != post.admin {
+                if let Some(a) = &pre.admin {
+                    former_admins.push(a.clone());
+                }
+                ctx.flag(if post.admin.is_some() { "admin_handover" } else { "admin_cleared" });
+            }
+            let weights_changed = pre.members != post.members;
+
+            match prop {
+                "C09" => {
+                    check_c09_current(&w, &post, if is_group { Some(&model) } else { None }, &at)?;
+                    match hist.last_mut() {
+                        Some((bh, m)) if *bh == w.d.height => *m = model.clone(),
+                        _ => hist.push((w.d.height, model.clone())),
+                    }
+                    // a change made in block h must not show at height h
+                    let now = w.d.height;
+                    check_c09_heights(&w, &hist, now..=now, &at, ctx)?;
+                    // bookkeeping for the non-triviality rule
+                    for a in w.addr_strs.iter().take(N_ADDR as usize) {
+                        let (p, q) = (pre.members.get(a), post.members.get(a));
+                        let mut n = 0;
+                        if p != q {
+                            n = 1;
+                        }
+                        if ok && overlap.contains(a) && p.is_some() {
+                            n = 2; // re-weighted and removed by one call: two writes in this block
+                        }
+                        if n > 0 {
+                            let c = changes_in_block.entry(a.clone()).or_insert(0);
+                            *c += n;
+                            if *c >= 2 {
+                                ctx.flag("multi_change_in_block");
+                            }
+                        }
+                        if p.is_some() && q.is_none() {
+                            removed_once.insert(a.clone());
+                            ctx.flag("removal");
+                        }
+                        if p.is_none() && q.is_some() && removed_once.contains(a) {
+                            ctx.flag("readd_after_removal");
+                        }
+                    }
+                    if ok && matches!(op, Op::UpdateMembers { .. }) && !weights_changed {
+                        ctx.flag("noop_update");
+                    }
+                }
+                "C14" => {
+                    let changed = check_c14_step(&w, sender.as_str(), &touched, ok, res.as_ref().ok(), &pre, &post, &hooks_pre, &at, ctx)?;
+                    if post.hooks != model_hooks {
+                        return Err(v(prop, "hooks-ne-model", format!("{at}: Hooks reports {:?}; the successful AddHook/RemoveHook calls give {:?}", post.hooks, model_hooks)));
+                    }
+                    if ok && !sender_is_admin && matches!(op, Op::UpdateMembers { .. } | Op::UpdateAdmin { .. } | Op::AddHook { .. } | Op::RemoveHook { .. }) {
+                        // not asserted (a call that changes nothing is not forbidden by the statement), only measured
+                        ctx.count("gated_call_ok_for_non_admin");
+                    }
+                    if ok && matches!(op, Op::UpdateAdmin { .. }) {
+                        if let Op::UpdateAdmin { to, .. } = op {
+                            if post.admin != to.map(|i| w.addr_str(i)) {
+                                ctx.count("update_admin_result_differs_from_request");
+                            }
+                        }
+                    }
+                    if changed {
+                        if !hooks_pre.is_empty() {
+                            ctx.flag("change_with_hooks");
+                            if !overlap.is_empty() {
+                                ctx.flag("overlap_change_with_hooks");
+                            }
+                        }
+                        if hook_stage == 0 && hooks_pre.len() >= 2 {
+                            hook_stage = 1;
+                        } else if hook_stage == 2 && !hooks_pre.is_empty() {
+                            hook_stage = 3;
+                            ctx.flag("hook_removed_between_changes");
+                        }
+                    }
+                    if ok && !overlap.is_empty() && !hooks_pre.is_empty() {
+                        ctx.flag("overlap_update_with_hooks");
+                    }
+                    if ok && matches!(op, Op::RemoveHook { .. }) && hook_stage == 1 {
+                        hook_stage = 2;
+                    }
+                    if !sender_is_admin && !former_admins.is_empty() && former_admins.iter().any(|a| a == sender.as_str()) {
+                        ctx.flag("former_admin_attempt");
+                    }
+                }
+                _ => {}
+            }
+            pre = post;
+        }
+    }
+
+    if prop == "C09" {
+        check_c09_heights(&w, &hist, h_lo..=w.d.height + 2, &format!("end of block {} (end of case)", w.d.height), ctx)?;
+        ctx.count("blocks_closed");
+    }
+
+    let nontrivial = match prop {
+        "C09" => ctx.has("multi_change_in_block") && ctx.has("readd_after_removal"),
+        "C14" => ctx.has("overlap_update_with_hooks") || ctx.has("hook_removed_between_changes"),
+        _ => false,
+    };
+    if nontrivial {
+        ctx.flag(if is_group { "nontrivial_group" } else { "nontrivial_stake" });
+    }
+    ctx.nontrivial = nontrivial;
+    Ok(())
+}
+
+// ---------------------------------------------------------------- family
+
+pub struct Cw4Family;
+
+const ASSUME: &[&str] = &[
+    "transactions are atomic: a failed or panicking call leaves no state (direct driver restores the store)",
+    "MockApi bech32 address validation stands for the chain's; info.sender is always a valid address",
+    "cosmwasm-std, cw-storage-plus (SnapshotMap/SnapshotItem), cw-controllers (Admin, Hooks, Claims), cw-utils, cw2 are trusted as execution substrate but are on the executed path",
+    "natively compiled contract code behaves as its wasm build (overflow checks on)",
+    "cw4-stake runs with a native stake denom and the bonded funds are passed directly in MessageInfo.funds (token backing is C10's subject); bonded amounts are capped at 2^40 so every stake/tokens_per_weight quotient fits u64 (the u64 wrap is C10's subject)",
+    "the case owns block boundaries: 'the value at the start of block h' is the membership after the last transaction of the last block below h; future heights are queried only after the last transaction of the open block",
+];
+
+impl Family for Cw4Family {
+    type Case = Case;
+    fn name(&self) -> &'static str {
+        "cw4"
+    }
+    fn props(&self) -> Vec<PropSpec> {
+        vec![
+            PropSpec {
+                id: "C09",
+                quick_cases: 1500,
+                thorough_cases: 6000,
+                floor: 100,
+                rule: "case = cw4-group (0-6 initial members from a 6-address pool, duplicates/invalid occasionally) or cw4-stake (random tokens_per_weight/min_bond, native denom) + up to 25 (thorough 50) blocks of 0-3 (4) transactions, heights advancing by 1..5 (0 = same block, incl. the instantiation block): UpdateMembers with overlapping add/remove lists, same-value re-weights, removals and re-adds resp. Bond/Unbond with state-relative amounts around min_bond and the whole stake. After every transaction: TotalWeight == sum of paged ListMembers == (cw4-group) reference model; Member == listing; raw TOTAL_KEY / member_key(addr) == smart queries; Member/TotalWeight at the current height == value at the start of this block. At the end of every block: Member{addr,at_height:h} for all 6 pool addresses and (cw4-group) TotalWeight{at_height:h} for every h from instantiation-2 to now+2 against the per-block history. Non-trivial: >=1 address whose weight changed >=2 times within one block (queried at that height and the next) and >=1 removal later followed by a re-add; distinct = distinct canonical JSON of the case.",
+                assumptions: ASSUME,
+            },
+            PropSpec {
+                id: "C14",
+                quick_cases: 12_000,
+                thorough_cases: 20_000,
+                floor: 100,
+                rule: "same case type, up to 16 (thorough 30) blocks of 0-5 (6) transactions weighted towards UpdateAdmin (to another address / to none), AddHook/RemoveHook (4 hook addresses + an invalid one) and UpdateMembers resp. Bond/Unbond, sent by the current admin, former admins and strangers. Around every call ListMembers/Hooks/Admin are compared: membership (cw4-group), hook list and admin differ only after a successful call of the pre-call admin (never once the admin is none); every MemberChangedHook message of every successful call is decoded and its entries are composed per key (first old == pre weight, entries chain, last new == post weight, keys only addresses named by the call, every changed address present); when weights changed, each registered hook got exactly one notification and nobody else got one. Non-trivial: a successful UpdateMembers with an address in both lists while >=1 hook is registered, or a weight change notified to >=2 hooks, then a successful RemoveHook, then another notified weight change.",
+                assumptions: ASSUME,
+            },
+        ]
+    }
+    fn strategy(&self, prop: &str, tier: Tier) -> BoxedStrategy<Case> {
+        case_strategy(prop, tier)
+    }
+    fn run(&self, prop: &str, case: &Case, ctx: &mut CaseCtx) -> Result<(), Violation> {
+        run_case(prop, case, ctx)
+    }
+}
